@@ -102,7 +102,12 @@ pub fn short_strings(ctx: &'static Ctx, prop: &'static str, len: usize, first: O
 
 /// S2: byte-level single deviations of every seed
 pub fn byte_mutations(ctx: &'static Ctx, prop: &'static str, other_status_is_violation: bool) {
-    let seeds = all_seeds();
+    // (the multi-kilobyte large-blob seeds are left out of the per-byte edits: 512 edits per byte)
+    let mut seeds: Vec<_> = all_seeds().into_iter().filter(|s| s.3.len() <= 2000).collect();
+    // plus the full anchors carrying unknown members in every extensible map
+    for (label, bytes) in seeds_with_unknown_members() {
+        seeds.push((label, Target::Cmd(bytes[0]), V::Null, bytes));
+    }
     // substitution / insertion / deletion / truncation: one flat index space over all seeds
     let mut offsets: Vec<(usize, u64)> = Vec::new(); // (seed, first index)
     let mut total = 0u64;
@@ -236,6 +241,61 @@ pub fn chain(kind: u8, depth: usize) -> Vec<u8> {
     out
 }
 
+/// heads that announce an enormous element / byte count while the message ends early
+fn huge_counts(ctx: &'static Ctx) {
+    let seeds: Vec<_> = all_seeds().into_iter().filter(|s| s.0.ends_with(":full") || s.0.ends_with(":minimal")).collect();
+    let mut cases: Vec<(usize, usize, u8, bool)> = Vec::new(); // (seed, site, width 4|8, keep the rest)
+    let mut enc: Vec<(Vec<u8>, Vec<crate::refcbor::Site>)> = Vec::new();
+    for (si, s) in seeds.iter().enumerate() {
+        let (b, sites) = encode_sites(&s.2);
+        for (k, site) in sites.iter().enumerate() {
+            if matches!(site.major, 2 | 3 | 4 | 5) {
+                for w in [4u8, 8] {
+                    for keep in [false, true] {
+                        cases.push((si, k, w, keep));
+                    }
+                }
+            }
+        }
+        enc.push((b, sites));
+    }
+    let stalled = std::sync::atomic::AtomicBool::new(false);
+    let (cr, er, sr, st) = (&cases, &enc, &seeds, &stalled);
+    sweep(ctx, "heads announcing 2^32-1 / 2^64-1 elements", cases.len() as u64, "every string / array / map head of both anchors of every command replaced by a 5- or 9-byte head with all-ones count, the rest of the message kept or cut; each call must return promptly", move |idx, l| {
+        if st.load(std::sync::atomic::Ordering::Relaxed) {
+            l.bump("skipped after a stall was recorded");
+            return;
+        }
+        let (si, k, w, keep) = cr[idx as usize];
+        let (body, sites) = &er[si];
+        let site = &sites[k];
+        let cmd = match sr[si].1 {
+            Target::Cmd(b) => b,
+            _ => unreachable!(),
+        };
+        let mut m = vec![cmd];
+        m.extend_from_slice(&body[..site.off]);
+        m.push(site.major << 5 | if w == 4 { 26 } else { 27 });
+        m.extend(std::iter::repeat(0xff).take(w as usize));
+        if keep {
+            m.extend_from_slice(&body[site.off + site.head_len..]);
+        }
+        l.nontrivial += 1;
+        let t0 = std::time::Instant::now();
+        let r = robust(&m, false);
+        let dt = t0.elapsed();
+        if dt.as_millis() > 1500 {
+            st.store(true, std::sync::atomic::Ordering::Relaxed);
+            l.fail(ctx, idx, Verdict::fail(format!("{}|stall|announced-count", P), "returns promptly (work bounded by the input length)", format!("{} ms for a {}-byte message", dt.as_millis(), m.len())), || bytes_case(&m, json!({"huge_count_at": site.path, "width": w})));
+            return;
+        }
+        match r {
+            Ok(class) => l.bump(class),
+            Err(v) => l.fail(ctx, idx, v, || bytes_case(&m, json!({"huge_count_at": site.path, "width": w}))),
+        }
+    });
+}
+
 /// S3: structure-level deviations
 fn structural(ctx: &'static Ctx) {
     // (a) every leaf of every command's full anchor replaced by boundary-crossing values
@@ -323,6 +383,55 @@ fn structural(ctx: &'static Ctx) {
             }
         });
     }
+    // (a2) two leaves replaced at once by small values: selector-like integers against short
+    // byte strings / texts / lists (length arithmetic that depends on another member's value)
+    for b in PARAM_CMDS {
+        let t = Target::Cmd(b);
+        let plan = Plan::new(&t.schema(), Side::Request);
+        let full = plan.full_mask();
+        let mut small: Vec<(V, String)> = Vec::new();
+        for x in [0u64, 1, 2, 3, 4, 16, 17, 23, 24, 31, 32, 255] {
+            small.push((V::U(x), format!("uint({})", x)));
+        }
+        for len in [0usize, 1, 2, 15, 16, 17, 31, 32, 33, 47, 48, 49, 63, 64, 65] {
+            small.push((V::B(fill_bytes(len, 1)), format!("bytes({})", len)));
+        }
+        for len in [0usize, 1, 64, 65] {
+            small.push((V::t(&fill_text(len, 1)), format!("text({})", len)));
+        }
+        small.push((V::A(vec![]), "array(0)".into()));
+        small.push((V::M(vec![]), "map(0)".into()));
+        small.push((V::Bool(true), "true".into()));
+        let n = plan.leaves.len();
+        let k = small.len() as u64;
+        // from the full anchor and from every message lacking exactly one optional member
+        let mut masks = vec![full];
+        masks.extend((0..plan.opts.len()).map(|o| full & !(1u64 << o)).filter(|m| plan.valid(*m)));
+        let mut pairs: Vec<(u64, usize, usize)> = Vec::new();
+        for m in &masks {
+            for a in 0..n {
+                for b in a + 1..n {
+                    if plan.leaf_enabled(a, *m) && plan.leaf_enabled(b, *m) {
+                        pairs.push((*m, a, b));
+                    }
+                }
+            }
+        }
+        let total = pairs.len() as u64 * k * k;
+        let (plan_r, small_r, t_r, pairs_r) = (&plan, &small, &t, &pairs);
+        sweep(ctx, &format!("{} two-leaf replacement by small values", t.name()), total, "every unordered pair of leaves of the full anchor and of every message lacking exactly one optional member x 34 x 34 small values (selector-like integers, byte strings and texts around 16 / 32 / 48 / 64, empty containers)", move |idx, l| {
+            let vb = (idx % k) as usize;
+            let va = (idx / k % k) as usize;
+            let (mask, la, lb) = pairs_r[(idx / (k * k)) as usize];
+            let wire = plan_r.build_with(mask, &[], &[(la, small_r[va].0.clone()), (lb, small_r[vb].0.clone())]);
+            let m = t_r.bytes(&wire);
+            l.nontrivial += 1;
+            match robust(&m, true) {
+                Ok(class) => l.bump(class),
+                Err(v) => l.fail(ctx, idx, v, || bytes_case(&m, json!({"leaves": [plan_r.leaves[la].path, plan_r.leaves[lb].path], "values": [small_r[va].1, small_r[vb].1]}))),
+            }
+        });
+    }
     // (b) nesting chains in unknown-member and known-member positions, up to the message limit
     let mut depths: Vec<usize> = (1..=64).collect();
     depths.extend([100, 128, 200, 256, 500, 512, 1000, 1024, 2000, 2048, 3000, 3700, 4096, 6000, 7000, 7500, 7590]);
@@ -389,6 +498,7 @@ pub fn run(ctx: &'static Ctx) {
     byte_mutations(ctx, P, false);
     splices(ctx);
     structural(ctx);
+    huge_counts(ctx);
     if ctx.thorough() {
         double_substitutions(ctx);
     }
